@@ -20,6 +20,26 @@ Facts observe_all(World& w)
         auto f = facts_of(observe_track(w.tracks[k]), "track#" + std::to_string(w.tracks[k].id()) + ".");
         for (auto& kv : f) all["t" + std::to_string(k) + "." + kv.first] = kv.second;
     }
+    // A track without performance data has no cue / loop slots at all: its lists are empty and every slot accessor refuses its index.
+    // For the comparisons of this check that is the same observation as eight empty slots (the padding every written track gets):
+    // "no cue in slot k" either way. (An accessor that refuses an index of a list that HAS that slot still shows, through the list.)
+    for (auto& kv : all)
+    {
+        const std::string& key = kv.first;
+        auto ends = [&](const char* suf) { size_t n = strlen(suf); return key.size() >= n && key.compare(key.size() - n, n, suf) == 0; };
+        if ((key.find(".hot_cue_at(") != std::string::npos || key.find(".loop_at(") != std::string::npos) && kv.second.rfind("!throws std::out_of_range", 0) == 0)
+        {
+            std::string list = key.substr(0, key.rfind('.') + 1) + (key.find(".hot_cue_at(") != std::string::npos ? "hot_cues" : "loops");
+            auto it = all.find(list);
+            if (it != all.end() && (it->second.empty() || it->second == "--------")) kv.second = "-";
+        }
+    }
+    for (auto& kv : all)
+    {
+        const std::string& key = kv.first;
+        auto ends = [&](const char* suf) { size_t n = strlen(suf); return key.size() >= n && key.compare(key.size() - n, n, suf) == 0; };
+        if ((ends(".hot_cues") || ends(".loops")) && kv.second.empty()) kv.second = "--------";
+    }
     return all;
 }
 
@@ -41,9 +61,10 @@ void op_tt_foreign(World& w, const Op& op)
     td.average_loudness_high = td.average_loudness_low * 0.25;
     tt.set_track_data(id, td);
 }
+void op_drop_perf(World& w, const Op& op) { w.exec("DELETE FROM perfdata.PerformanceData WHERE id = " + std::to_string(w.tracks.at((size_t)op.i.at(0)).id())); }
 struct RegisterForeign
 {
-    RegisterForeign() { World::register_op("tt_foreign", op_tt_foreign); }
+    RegisterForeign() { World::register_op("tt_foreign", op_tt_foreign); World::register_op("drop_perf", op_drop_perf); }
 } register_foreign;
 
 struct Dom
@@ -63,7 +84,9 @@ struct Dom
         // would leave it): the redundant copies inside the blobs differ from each other (default vs adjusted main cue, default vs
         // adjusted beat grid, three loudness bands). Getter and snapshot must still read the same copy, and no setter may disturb it.
         if (is_v2(sch)) return {"create_track(0);create_track(2)", "create_track(3);create_track(0)", "@1:create_track(2);create_track(3);tt_foreign(0)"};
-        return {"create_track(0);create_track(2)", "create_track(3);create_track(0)"};
+        // third seed, 1.x: a track without a PerformanceData row (an un-analysed track, which the library documents as legitimate; the
+        // public write path always creates the row, so the row is deleted by raw SQL): the first setter that needs the row must create it
+        return {"create_track(0);create_track(2)", "create_track(3);create_track(0)", "@1:create_track(2);create_track(0);drop_perf(1)"};
     }
     // group restriction for the deep tier: VX_C06_GROUP selects the fields that share a row or blob
     static const std::set<std::string>& group()
@@ -274,7 +297,7 @@ int run(const Options& o)
     c["evaluations"] = st.transitions;
     c["distinct_nontrivial"] = total.ndistinct("nontrivial");
     c["rule"] =
-        "Explicit-state BFS on the real library. Two tracks (seed A: minimal + fully analysed; seed B: all eight cue and loop slots used + minimal; on 2.x a third seed, entering one level late, whose first track carries foreign performance data written through the table API: default and adjusted main cue, default and adjusted beat grid and the three loudness bands all differ). Alphabet in every state, for each track: "
+        "Explicit-state BFS on the real library. Two tracks (seed A: minimal + fully analysed; seed B: all eight cue and loop slots used + minimal; on 2.x a third seed, entering one level late, whose first track carries foreign performance data written through the table API: default and adjusted main cue, default and adjusted beat grid and the three loudness bands all differ; on 1.x a third seed whose second track has no PerformanceData row). Alphabet in every state, for each track: "
         "every setter of the 25 fields with its value alphabet (absent, the 0 / empty sentinel, ordinary, edge: " + std::to_string(nops) + " setter calls per track in all) and set_hot_cue_at / set_loop_at at every "
         "index 0..7 with {absent, entry, entry with 255-byte label}. After every transition every getter and snapshot() of BOTH tracks is read: the set field's getter must return one of the "
         "texts the normalisation table allows, each getter must equal the corresponding snapshot field, list getters must equal the slot getters, and no fact outside the set field's own "
